@@ -160,8 +160,14 @@ const (
 	entryAuthorizer
 )
 
+// overridePub, when set, is the root public key of the family under test
+var overridePub ed25519.PublicKey
+
 func newAuthorizer(tok *biscuit.Biscuit, maxF, maxI int, entry azEntry) (biscuit.Authorizer, error) {
 	pub, _ := rootKeys()
+	if overridePub != nil {
+		pub = overridePub
+	}
 	opt := biscuit.WithWorldOptions(datalog.WithMaxFacts(maxF), datalog.WithMaxIterations(maxI), datalog.WithMaxDuration(20*time.Second))
 	if entry == entryAuthorizer {
 		return tok.Authorizer(pub, opt)
